@@ -176,6 +176,12 @@ def _req_step(sid, name, entry, p, r, actor):
     if entry == 'mpf_kw':
         return {'kind': 'call', 'actor': actor, 'op': 'new:mpf', 'args': [{'t': 'const', 'v': name}],
                 'kwargs': {'prec': {'t': 'int', 'v': p}, 'rounding': {'t': 'str', 'v': r}}, 'id': sid, 'c17': meta}
+    if entry == 'call':       # the constant object called with keywords: mp.pi(prec=p, rounding=r)
+        return {'kind': 'call', 'actor': actor, 'op': 'call:', 'args': [{'t': 'const', 'v': name}],
+                'kwargs': {'prec': {'t': 'int', 'v': p}, 'rounding': {'t': 'str', 'v': r}}, 'id': sid, 'c17': meta}
+    if entry == 'mul1':       # arithmetic with the constant as an operand at working precision p: 1 * mp.pi
+        return {'kind': 'probe', 'actor': actor, 'prec': p, 'op': 'op:mul', 'args': [{'t': 'int', 'v': 1}, {'t': 'const', 'v': name}],
+                'id': sid, 'c17': meta}
     if entry == 'lib':
         return {'kind': 'call', 'actor': 'mp', 'op': 'lib:mpf_' + name, 'args': [{'t': 'int', 'v': p}, {'t': 'str', 'v': r}], 'id': sid, 'c17': meta}
     if entry == 'iv':
@@ -388,7 +394,7 @@ class _Gen(object):
         self.consts = r.sample(CONSTS, k)
         if r.random() < 0.5:
             self.consts = [c for c in self.consts if c not in ('twinprime', 'khinchin', 'mertens', 'glaisher')] or ['pi']
-        self.entries = [e for e in ('pos', 'mpf_kw', 'lib', 'iv') if r.random() < 0.7] or ['lib']
+        self.entries = [e for e in ('pos', 'mpf_kw', 'lib', 'iv', 'call', 'mul1') if r.random() < 0.7] or ['lib']
         self.modes = r.choice(['n', 'nfc', 'nfcdu', 'fc'])
         self.fault_rate = r.choice([0.0, 0.0, 0.1, 0.25, 0.5])
         self.placement = r.choice(['uniform', 'late', 'store', 'store'])
@@ -445,8 +451,8 @@ class _Gen(object):
             entry = r.choice(self.entries)
             if entry == 'iv' and c not in IV_CONSTS:
                 entry = 'lib'
-            rnd = r.choice(self.modes) if entry in ('mpf_kw', 'lib') else 'n'
-            actor = 'c1' if (self.clone and entry in ('pos', 'mpf_kw') and r.random() < 0.4) else 'mp'
+            rnd = r.choice(self.modes) if entry in ('mpf_kw', 'lib', 'call') else 'n'
+            actor = 'c1' if (self.clone and entry in ('pos', 'mpf_kw', 'call', 'mul1') and r.random() < 0.4) else 'mp'
             st = _req_step(self.new_id(), c, entry, p, rnd, actor)
             u1 = r.random(); u2 = r.random()
             if u1 < self.fault_rate and nfault < 3:
@@ -459,7 +465,7 @@ class _Gen(object):
                     e2 = r.choice(self.entries)
                     if e2 == 'iv' and c not in IV_CONSTS:
                         e2 = 'lib'
-                    steps.append(_req_step(self.new_id(), c, e2, q, r.choice(self.modes) if e2 in ('mpf_kw', 'lib') else 'n', 'mp'))
+                    steps.append(_req_step(self.new_id(), c, e2, q, r.choice(self.modes) if e2 in ('mpf_kw', 'lib', 'call') else 'n', 'mp'))
             if r.random() < self.noise_rate:
                 e = catalogue.BY_KEY[r.choice(NOISE)]
                 q = min(e.maxprec, r.choice([p, p + 13, max(1, p - 7), r.randint(20, 600)]))
